@@ -79,13 +79,20 @@ func init() {
 			for _, c := range typed {
 				keys = append(keys, string(c))
 			}
+			// an application that accepts multi-line input (AcceptMultiline installed): the buffer is complete
+			// when it ends with ";" — reached at once, or after a first RET that only continues the buffer.
+			// Every accept variant goes through this path then, not only accept-line.
 			multi := false
-			if acc.name == "accept-line" && typed != "" && r.Intn(4) == 0 {
-				// completed multi-line buffer: first RET continues, second accepts
+			if acc.name != "interrupt" && strings.TrimSpace(typed) != "" && r.Intn(3) == 0 {
 				multi = true
 				sp.Multi = ";"
-				keys = append(keys, "\r", ";")
-				typed += "\n;"
+				if r.Intn(2) == 0 {
+					keys = append(keys, "\r", ";")
+					typed += "\n;"
+				} else {
+					keys = append(keys, ";")
+					typed += ";"
+				}
 			}
 			keys = append(keys, acc.keys)
 			sp.Chunks = hexChunks(keys)
